@@ -1,6 +1,7 @@
 import Drv.Util
 import Crng.Framing
 import Crng.ReadLine
+import Crng.PickleIn
 /-! driver for input framing (C12): `plain <stream> <cuts> <end>`, `udp <datagram>`, `amqp <body>...` -/
 namespace Drv.Frame
 open Drv
@@ -22,6 +23,37 @@ def parseCuts (s : String) : List Int := if s == "-" then [] else (s.splitOn ","
 def emitOut (toks : List Bytes) (err : Bool) : List String :=
   toks.map (fun t => s!"tok {hexOrDash t}") ++ ["invalid 0", if err then "ret err" else "ret ok"]
 
+/-! og-rek's dump of a decoded frame, as written by the harness: s<hex> i<dec> b<dec> f<bits> T(..) L(..) o -/
+mutual
+  partial def parseV (s : List Char) : Crng.PkIn.V × List Char :=
+    match s with
+    | 's' :: t =>
+      let h := t.takeWhile (fun c => c != ',' && c != ')')
+      (.str (arg (String.ofList h)), t.dropWhile (fun c => c != ',' && c != ')'))
+    | 'i' :: t =>
+      let h := t.takeWhile (fun c => c != ',' && c != ')')
+      (.int (String.ofList h).toInt!, t.dropWhile (fun c => c != ',' && c != ')'))
+    | 'b' :: t =>
+      let h := t.takeWhile (fun c => c != ',' && c != ')')
+      (.big (String.ofList h).toInt!, t.dropWhile (fun c => c != ',' && c != ')'))
+    | 'f' :: t =>
+      let h := t.takeWhile (fun c => c != ',' && c != ')')
+      (.float (String.ofList h).toNat!, t.dropWhile (fun c => c != ',' && c != ')'))
+    | 'T' :: '(' :: t => let (xs, r) := parseVs t []; (.tuple xs, r)
+    | 'L' :: '(' :: t => let (xs, r) := parseVs t []; (.list xs, r)
+    | 'o' :: t => (.other, t)
+    | _ => (.other, [])
+  partial def parseVs (s : List Char) (acc : List Crng.PkIn.V) : List Crng.PkIn.V × List Char :=
+    match s with
+    | ')' :: t => (acc.reverse, t)
+    | ',' :: t => parseVs t acc
+    | [] => (acc.reverse, [])
+    | _ => let (x, r) := parseV s; parseVs r (x :: acc)
+end
+
+def parseDec (d : String) : Crng.PkIn.Dec :=
+  if d == "eof" then .unexpectedEOF else if d == "err" then .err else .ok (parseV d.toList).1
+
 def handle : List String → List String
   | ["plain", d, cuts, e] =>
     let (chunks, timedOut) := chunksOf (arg d) (parseCuts cuts)
@@ -30,6 +62,15 @@ def handle : List String → List String
   | ["udp", d] =>
     let o := Crng.Fr.run 65536 {} [arg d] []
     emitOut o.tokens o.err
+  | "pickle" :: d :: cuts :: e :: decs =>
+    let (chunks, timedOut) := chunksOf (arg d) (parseCuts cuts)
+    let table : List (Bytes × Crng.PkIn.Dec) := decs.filterMap fun kv =>
+      match kv.splitOn "=" with
+      | [k, v] => some (arg k, parseDec v)
+      | _ => none
+    let decode (b : Bytes) : Crng.PkIn.Dec := match table.find? (·.1 == b) with | some (_, r) => r | none => .err
+    let o := Crng.PkIn.run decode (!timedOut && (e == "eof" || e == "dataeof")) chunks.flatten
+    o.tokens.map (fun t => s!"tok {hexOrDash t}") ++ [s!"invalid {o.invalid}", if o.err then "ret err" else "ret ok"]
   | "amqp" :: bodies => emitOut (bodies.flatMap fun b => Crng.RL.amqpTokens 4096 (arg b)) false
   | _ => ["bad-op"]
 
